@@ -423,6 +423,9 @@ func TestC18Replay(t *testing.T) {
 					if i%3 == 1 {
 						r.rename = fmt.Sprintf("renamed/%d.nc", i)
 					}
+					if i%3 == 2 {
+						r.rename = r.name // a target name equal to the name is a rename like any other: it comes back as written
+					}
 					in.Received(r)
 					want = append(want, rec{r.name, r.rename, r.hash, r.size, r.t.Unix()})
 					time.Sleep(time.Second)
@@ -455,5 +458,5 @@ func TestC18Replay(t *testing.T) {
 			}
 		}
 	}
-	rep.Bound = fmt.Sprintf("every record count 1..%d (thorough: beyond 200 every 97th up to 1500, > 64 KiB per day file) on one day and split over two days; one record per second; every third record with a rename; handler keeps its string arguments and they are compared after Parse returned", maxN)
+	rep.Bound = fmt.Sprintf("every record count 1..%d (thorough: beyond 200 every 97th up to 1500, > 64 KiB per day file) on one day and split over two days; one record per second; every third record with a rename, every third with a rename equal to its name; handler keeps its string arguments and they are compared after Parse returned", maxN)
 }
